@@ -16,6 +16,7 @@ ERRN = {0: None, 1: "IndexError", 2: "ValueError", 3: "TypeError", 9: "RuntimeEr
 ALLOWED = "0123456789ABCDEFGHIJKLMNOPQRSTUVWXYZ"
 
 WIDE, ACC, COMB = "世", "é", "́"
+ASTRAL, ASTRAL2 = "\U0001F600", "\U00020000"      # 4 bytes in UTF-8 (1..4 bytes: "a", ACC, WIDE, ASTRAL)
 UNUSED_KEYS = ["f5", "page up", "page down", "esc", "ctrl x", "shift tab", "insert", "\x01", "\n", "ab", "meta a",
                "ctrl l", "shift f1"]
 
@@ -137,8 +138,9 @@ class C10(core.Check):
     rule = ("cases = (widget variant, caption, text, wrap, align, flags, event list) where events are keypresses "
             "(printable, multi-character, named, unused), mouse clicks, renders, get_pref_col, set_edit_pos, each with "
             "its own width 1..9; exhaustive single events on every text of length <= 3 over {a, space, wide, newline} "
-            "at widths 1..3 plus random histories; a separate bytes stream (utf-8, euc-jp, big5, latin-1) judged by the "
-            "oracle only; non-trivial = some event changed the text or the offset; distinct by hash of (case, outcome)")
+            "at widths 1..3 plus random histories; a separate bytes stream judged by the oracle only: utf-8 exhaustive "
+            "(every text <= 3 of 1/2/3/4-byte characters x every boundary x left/right/backspace/delete) and random "
+            "(utf-8 with 1..4-byte and combining characters, euc-jp, big5, latin-1); non-trivial = some event changed the text or the offset; distinct by hash of (case, outcome)")
     trusted_base = [
         "Coq 8.16.1 kernel (coqc; vm_compute used only for closed examples)",
         "extraction: ExtrOcamlBasic only; Z/positive stay Coq datatypes; OCaml 4.13.1",
@@ -927,12 +929,12 @@ class C10(core.Check):
                 p = so["pos"]
 
     # ------------------------------------------------------------------ generators
-    CHARS = ["a", "b", " ", WIDE, ACC, COMB, "a", " "]
+    CHARS = ["a", "b", " ", WIDE, ACC, COMB, "a", " ", ASTRAL]
     CAPS = ["", "", "c:", WIDE + " ", "ab\n", ACC, "x " + COMB]
 
-    def _steps(self, rng, n, w, chars, clicks=True, wmax=9):
+    def _steps(self, rng, n, w, chars, clicks=True, wmax=9, names=None):
         steps = []
-        names = ["left", "right", "up", "down", "home", "end", "backspace", "delete", "enter", "tab"]
+        names = names or ["left", "right", "up", "down", "home", "end", "backspace", "delete", "enter", "tab"]
         for _ in range(n):
             if rng.random() < 0.07:
                 w = rng.randint(1, wmax)
@@ -1082,8 +1084,8 @@ class C10(core.Check):
     # ------------------------------------------------------------------ not case-shaped work
     def bytes_case(self, rng, enc):
         if enc == "utf-8":
-            chars = ["a", "b", " ", WIDE, ACC, "a" + COMB][:5] + [COMB]
-            keych = ["a", " ", WIDE, ACC]
+            chars = ["a", "b", " ", WIDE, ACC, COMB, ASTRAL, ASTRAL2, ASTRAL]      # 1, 2, 3 and 4 byte characters
+            keych = ["a", " ", WIDE, ACC, ASTRAL]
         elif enc in ("euc-jp", "big5"):
             chars = ["a", " ", WIDE, "界", "b", "@", "A"]
             keych = ["a", " ", "@"]
@@ -1099,16 +1101,34 @@ class C10(core.Check):
         return {"variant": ["edit"], "bytes": True, "enc": enc, "caption": rng.choice(["", "c:", WIDE if enc != "latin-1" else ACC]),
                 "text": text, "pos": pos, "multiline": rng.random() < 0.6, "allow_tab": rng.random() < 0.2, "mask": None,
                 "wrap": rng.choice(["space", "any", "clip"]), "align": rng.choice(["left", "center", "right"]),
-                "steps": [s for s in self._steps(rng, rng.choice([4, 8, 14]), w, keych, clicks=True)
+                "steps": [s for s in self._steps(rng, rng.choice([4, 8, 14]), w, keych, clicks=True,
+                                                 names=["left", "right", "backspace", "delete"] * 3 +
+                                                       ["up", "down", "home", "end", "enter", "tab"])
                           if s[0] != "setpos" and (enc == "utf-8" or s[0] != "key" or s[1].isascii())]}
+
+    def exhaustive_bytes_cases(self, maxlen):
+        """utf-8 bytes mode: every text of characters of 1, 2, 3 and 4 bytes up to maxlen, the cursor on every
+        character boundary, every one-character movement / deletion key (twice in a row), then a focused render."""
+        alpha = ["a", ACC, WIDE, ASTRAL]
+        for n in range(0, maxlen + 1):
+            for tup in itertools.product(alpha, repeat=n):
+                text = "".join(tup)
+                for cap in ("", ASTRAL):
+                    for k in range(0, n + 1):
+                        pos = len(text[:k].encode("utf-8"))
+                        for kname in ("left", "right", "backspace", "delete"):
+                            yield {"variant": ["edit"], "bytes": True, "enc": "utf-8", "caption": cap, "text": text, "pos": pos,
+                                   "multiline": True, "allow_tab": False, "mask": None, "wrap": "any", "align": "left",
+                                   "steps": [["key", kname, 6], ["key", kname, 6], ["render", True, 6]]}
 
     def extra_checks(self, tier, rng, ev):
         out = []
         # 1. bytes mode / other encodings: oracle only (offset range, character boundary, reference editor)
-        n = 500 if tier == "quick" else 5000
-        for enc in ("utf-8", "utf-8", "euc-jp", "big5", "latin-1"):
-            for _ in range(n // 5):
-                c = self.bytes_case(rng, enc)
+        n = 750 if tier == "quick" else 6000
+        stream = [self.bytes_case(rng, enc) for enc in ("utf-8", "utf-8", "utf-8", "euc-jp", "big5", "latin-1")
+                  for _ in range(n // 6)]
+        for c in itertools.chain(self.exhaustive_bytes_cases(3 if tier == "quick" else 4), stream):
+            if True:
                 res = self.run_impl(c)
                 ev["evaluations"] += 1
                 if self.nontrivial_bytes(c, res):
